@@ -40,6 +40,7 @@ type Config struct {
 	Name        string        // sub-campaign name (one property may have several)
 	Rule        string        // how cases are generated and what non-trivial means
 	CaseTimeout time.Duration // hard watchdog per case; 0 = 30s
+	NoWAL       bool          // pure in-process computations: skip the per-case write-ahead file and watchdog
 }
 
 type stats struct {
@@ -124,6 +125,9 @@ func Exec[C any](r *Recorder, c C, check func(C) Outcome) Outcome {
 	if err != nil {
 		panic(fmt.Sprintf("vlib: case does not marshal: %v", err))
 	}
+	if r.cfg.NoWAL {
+		return r.account(data, safely(c, check))
+	}
 	r.writeRecord(r.walPath, data, "")
 	timer := time.AfterFunc(r.cfg.CaseTimeout, func() {
 		fmt.Fprintf(os.Stderr, "\nVERIF-HANG campaign=%s case exceeded %s\n", r.cfg.Name, r.cfg.CaseTimeout)
@@ -135,6 +139,10 @@ func Exec[C any](r *Recorder, c C, check func(C) Outcome) Outcome {
 	})
 	out := safely(c, check)
 	timer.Stop()
+	return r.account(data, out)
+}
+
+func (r *Recorder) account(data []byte, out Outcome) Outcome {
 	r.mu.Lock()
 	defer r.mu.Unlock()
 	if out.Skip {
